@@ -16,11 +16,16 @@
   the generated arms of `Generated/OpTables`.  Missing for the full statement: the other
   instruction kinds and types, `FuncGen::entry_block` (parameters, stack slots), the expansion of
   `cranelift_frontend::Switch` into `br_table` / `brif` chains and everything below it
-  (`Model/C01CgBase` states the reading of `Switch::set_entry` / `emit` that is trusted), and a
-  call whose result is assigned although the callee returns nothing is let through by the model
-  (the real builder would panic; the LIR lowering model never produces it).
+  (`Model/C01CgBase` states the reading of `Switch::set_entry` / `emit` that is trusted).
+  A call whose result is assigned although the callee returns nothing has NO emitted code in the
+  model (`cg_call_without_result_has_no_code`: the real builder panics on `inst_results(inst)[0]`);
+  the simulation therefore carries the decidable hypothesis `callsOk L` (every assigned call names
+  a function without `Return(None)`), which the driver evaluates on the LIR of every program of
+  the tie; `lower_assigns_only_existing_results`: `C01Lir.lowerProg` only produces such programs
+  (for `rv` = what `retInfoOf P` says), so `mir_to_code_partial` needs `namesOk P` only.
 -/
 import RotoV.Lemmas.C01CgSim
+import RotoV.Lemmas.C01CgCalls
 import RotoV.Lemmas.C01LirSim
 import RotoV.Model.NativeFloat
 
@@ -75,16 +80,41 @@ example : (letI : FloatOps := nativeFloatOps
     the emitted function returns — with the same fuel — the SSA value that encodes `w`
     (`⟨I32, n mod 2^32⟩` for the `i32` `n`, `⟨I8, 1 | 0⟩` for a boolean), and no value when the
     LIR function returns `()` through `Return(None)`. -/
-theorem cg_preserves_partial (L : List LFn) (C : List CFn) (h : cgProg L = some C)
+theorem cg_preserves_partial (L : List LFn) (C : List CFn) (h : cgProg L = some C) (hok : callsOk L = true)
     (n : Nat) (f : String) (args : List Val) (cs : List CVal) (w : Val)
     (henc : EncAll args cs) (hl : lRun L n f args = some w) :
-    ∃ r, cRun C n f cs = some r ∧ RetRel w r :=
-  cg_sim L C h n f args cs w henc hl
+    ∃ r, cRun C n f cs = some r ∧ RetRel w r := by
+  obtain ⟨r, hr, hrr, _⟩ := cg_sim L C h (rvOf L) hok n f args cs w henc hl
+  exact ⟨r, hr, hrr⟩
+
+/-- **An assigned call of a function that hands back no value has no code.**  `FuncGen::instruction`
+    takes `inst_results(inst)[0]` for a LIR call with a `to`; when the callee's call instruction
+    has no result the builder panics.  In the model: whatever follows, a block that reaches such a
+    call has no execution (it is not let through with the variable unchanged). -/
+theorem cg_call_without_result_has_no_code (call : String → List CVal → Option (Option CVal))
+    (t : Name) (ty : CTy) (f : String) (args : List COp) (rest : List CIns) (σ : CStore)
+    (h : call f (args.map (cVal σ)) = some none) :
+    cExec call (CIns.call (some (t, ty)) f args :: rest) σ = none := by
+  simp only [cExec, h]
+
+/-- **Functions that `callsOk` relies on do return a value**: under `callsOk L`, a function of `L`
+    without `Return(None)` (`rvOf L f`) that returns in LIR returns an SSA value in the emitted code
+    — the `inst_results(inst)[0]` of every assigned call exists. -/
+theorem cg_assigned_calls_have_results (L : List LFn) (C : List CFn) (h : cgProg L = some C) (hok : callsOk L = true)
+    (n : Nat) (f : String) (args : List Val) (cs : List CVal) (w : Val)
+    (henc : EncAll args cs) (hl : lRun L n f args = some w) (hf : rvOf L f = true) :
+    ∃ c, cRun C n f cs = some (some c) ∧ Enc w c := by
+  obtain ⟨r, hr, hrr, hs⟩ := cg_sim L C h (rvOf L) hok n f args cs w henc hl
+  cases r with
+  | none => exact absurd (hs hf) (by simp)
+  | some c => exact ⟨c, hr, hrr⟩
 
 /-- **From the compiler's MIR to the emitted code (scalar vocabulary).**  The LIR layer
     (`lir_lower_preserves_partial`: the model of `lir::lower`, instruction selection by the generated
     `lower_binop`) composed with the code-generation layer: for every MIR program `P` on which both
-    models are defined, every function `f` (parameter mask `mask`, `rv`: returns a value), all
+    models are defined and in which every function is the one its name finds (`namesOk`; with
+    `lower_assigns_only_existing_results` this discharges the hypothesis of `cg_preserves_partial`),
+    every function `f` (parameter mask `mask`, `rv`: returns a value), all
     arguments, the SSA encodings of the non-zero-sized ones and every fuel: if the MIR function
     returns `v`, the emitted function returns the SSA value of `v` (nothing when `v` is zero-sized
     and the function ends in `Return(None)`), with the same fuel. -/
@@ -93,9 +123,22 @@ theorem mir_to_code_partial (P : List MFn) (L : List LFn) (C : List CFn)
     (n : Nat) (f : String) (mask : List Bool) (rv : Bool) (args : List Val) (cs : List CVal) (v : Val)
     (hf : retInfoOf P f = some (mask, rv)) (hlen : args.length = mask.length)
     (henc : EncAll (C01LirSim.filterMask mask args) cs)
+    (hnames : namesOk P = true)
     (hm : mRun P n f args = some v) :
-    ∃ r, cRun C n f cs = some r ∧ RetRel (C01LirSim.fixVal rv v) r :=
-  cg_sim L C h2 n f _ cs _ henc (C01LirSim.lir_sim P L h1 n f mask rv args v hf hlen hm)
+    ∃ r, cRun C n f cs = some r ∧ RetRel (C01LirSim.fixVal rv v) r := by
+  obtain ⟨r, hr, hrr, _⟩ := cg_sim L C h2 (rvM P) (C01CgCalls.lowerProg_progOk P L hnames h1) n f _ cs _ henc
+    (C01LirSim.lir_sim P L h1 n f mask rv args v hf hlen hm)
+  exact ⟨r, hr, hrr⟩
+
+/-- **`lir::lower` never assigns a result that does not exist.**  For every MIR program `P` in which
+    every function is the one its name finds (`namesOk`: the compiler rejects a second function of
+    the same name) and on which the model of `lir::lower` is defined: in the LIR it produces, every
+    call with a `to` names a function `retInfoOf P` says returns a value, and no function of which
+    it says so contains `Return(None)` — the condition (`progOk`) under which the `Call` arm's
+    `inst_results(inst)[0]` exists (`cg_assigned_calls_have_results`). -/
+theorem lower_assigns_only_existing_results (P : List MFn) (L : List LFn)
+    (hnames : namesOk P = true) (h : lowerProg P = some L) : progOk (rvM P) L = true :=
+  C01CgCalls.lowerProg_progOk P L hnames h
 
 /-- a LIR function with a loop-free diamond: `fn f(x) { if x == 1 then 10 else 20 }` on a
     one-case switch -/
@@ -109,6 +152,7 @@ def exFn : LFn :=
 /-- non-vacuity of `cg_preserves_partial`: the model is defined on `exFn`, the LIR run returns a
     value, and the arguments are encoded. -/
 example : (letI : FloatOps := nativeFloatOps; (cgProg [exFn]).isSome) = true := by decide +kernel
+example : callsOk [exFn] = true := by decide +kernel
 example : (letI : FloatOps := nativeFloatOps; lRun [exFn] 10 "f" [.int 1]) = some (.int 10) := by decide +kernel
 example : (letI : FloatOps := nativeFloatOps; lRun [exFn] 10 "f" [.int 5]) = some (.int 20) := by decide +kernel
 example : EncAll [.int 1] [C01MirRun.cvI32 1] := EncAll.cons ⟨by decide, rfl⟩ EncAll.nil
@@ -131,10 +175,43 @@ def exM : MFn :=
                (3, [.drop (.t 1), .ret (.t 4)])] }
 
 example : retInfoOf [exM] "g" = some ([true, false], true) := by decide
+example : ((lowerProg [exM]).map callsOk) = some true := by decide +kernel
+example : namesOk [exM] = true := by decide +kernel
+/-- `namesOk` rejects a second function of the same name with another `retVal` -/
+example : namesOk [exM, { exM with retVal := false }] = false := by decide +kernel
 example : (letI : FloatOps := nativeFloatOps; mRun [exM] 10 "g" [.int 30, .unit]) = some (.int (-30)) := by decide +kernel
 example : (letI : FloatOps := nativeFloatOps
     ((lowerProg [exM]).bind fun L => cgProg L).bind fun C => cRun C 10 "g" [C01MirRun.cvI32 30])
     = some (some (C01MirRun.cvI32 (-30))) := by
+  decide +kernel
+
+/-- the hypothesis `callsOk` is needed, and `cg_call_without_result_has_no_code` /
+    `cg_assigned_calls_have_results` are not vacuous: `fn u() { }  fn k() -> i32 { 7 }
+    fn bad() -> i32 { let t = u(); 1 }  fn good() -> i32 { let t = k(); t }`. -/
+def exCalls : List LFn :=
+  [ { name := "u", params := [], newTmps := [], blocks := [(0, [.ret none])] },
+    { name := "k", params := [], newTmps := [], blocks := [(0, [.ret (some (.int 7))])] },
+    { name := "bad", params := [], newTmps := [(.t 0, .i32)],
+      blocks := [(0, [.call (some (.t 0, .i32)) "u" [], .ret (some (.int 1))])] },
+    { name := "good", params := [], newTmps := [(.t 0, .i32)],
+      blocks := [(0, [.call (some (.t 0, .i32)) "k" [], .ret (some (.var (.t 0)))])] } ]
+
+/-- the check rejects the program with `bad` and accepts it without -/
+example : callsOk exCalls = false := by decide +kernel
+example : callsOk (exCalls.filter (fun fn => fn.name != "bad")) = true := by decide +kernel
+example : rvOf exCalls "k" = true ∧ rvOf exCalls "u" = false := by decide +kernel
+/-- the LIR semantics lets `bad` through, the emitted code has no execution (the builder panics) … -/
+example : (letI : FloatOps := nativeFloatOps; lRun exCalls 10 "bad" []) = some (.int 1) := by decide +kernel
+example : (letI : FloatOps := nativeFloatOps
+    (cgProg exCalls).bind fun C => cRun C 10 "bad" []) = none := by decide +kernel
+/-- … and `good` returns the callee's value in both -/
+example : (letI : FloatOps := nativeFloatOps; lRun exCalls 10 "good" []) = some (.int 7) := by decide +kernel
+example : (letI : FloatOps := nativeFloatOps
+    (cgProg (exCalls.filter (fun fn => fn.name != "bad"))).bind fun C => cRun C 10 "good" [])
+    = some (some (C01MirRun.cvI32 7)) := by decide +kernel
+/-- non-vacuity of `cg_call_without_result_has_no_code`: a `call` that answers `some none` -/
+example : (letI : FloatOps := nativeFloatOps
+    (cExec (fun _ _ => some none) [CIns.call (some (.t 0, .I32)) "u" [], .ret []] (fun _ => ⟨.I8, 0⟩)).isNone) = true := by
   decide +kernel
 
 end
